@@ -107,16 +107,16 @@ __CPROVER_ensures(gej_ok(r))
 
 /* ---- x -> point with square y ("is x on the curve" verdict): oracle with verdict log (two slots) ---- */
 #ifdef LOG_XQUAD
-int g_xq_n; secp256k1_fe g_xq_x0, g_xq_x1; int g_xq_v0, g_xq_v1;
+int g_xq_n; secp256k1_fe g_xq_x0, g_xq_x1, g_xq_y0, g_xq_y1; int g_xq_v0, g_xq_v1;
 #endif
 static int secp256k1_ge_set_xquad(secp256k1_ge *r, const secp256k1_fe *x)
 __CPROVER_requires(__CPROVER_w_ok(r, sizeof(*r)) && __CPROVER_r_ok(x, sizeof(*x)) && fe_mag(x, 1))
 #ifdef LOG_XQUAD
-__CPROVER_assigns(*r, g_xq_n, g_xq_x0, g_xq_x1, g_xq_v0, g_xq_v1)
+__CPROVER_assigns(*r, g_xq_n, g_xq_x0, g_xq_x1, g_xq_y0, g_xq_y1, g_xq_v0, g_xq_v1)
 __CPROVER_ensures(g_xq_n == __CPROVER_old(g_xq_n) + 1)
-__CPROVER_ensures(__CPROVER_old(g_xq_n) == 0 ==> (FE_EQ_OLD(g_xq_x0, *x) && g_xq_v0 == __CPROVER_return_value && FE_KEEP(g_xq_x1) && g_xq_v1 == __CPROVER_old(g_xq_v1)))
-__CPROVER_ensures(__CPROVER_old(g_xq_n) == 1 ==> (FE_EQ_OLD(g_xq_x1, *x) && g_xq_v1 == __CPROVER_return_value && FE_KEEP(g_xq_x0) && g_xq_v0 == __CPROVER_old(g_xq_v0)))
-__CPROVER_ensures(__CPROVER_old(g_xq_n) > 1 ==> (FE_KEEP(g_xq_x0) && FE_KEEP(g_xq_x1) && g_xq_v0 == __CPROVER_old(g_xq_v0) && g_xq_v1 == __CPROVER_old(g_xq_v1)))
+__CPROVER_ensures(__CPROVER_old(g_xq_n) == 0 ==> (FE_EQ_OLD(g_xq_x0, *x) && FE_EQ(g_xq_y0, r->y) && g_xq_v0 == __CPROVER_return_value && FE_KEEP(g_xq_x1) && FE_KEEP(g_xq_y1) && g_xq_v1 == __CPROVER_old(g_xq_v1)))
+__CPROVER_ensures(__CPROVER_old(g_xq_n) == 1 ==> (FE_EQ_OLD(g_xq_x1, *x) && FE_EQ(g_xq_y1, r->y) && g_xq_v1 == __CPROVER_return_value && FE_KEEP(g_xq_x0) && FE_KEEP(g_xq_y0) && g_xq_v0 == __CPROVER_old(g_xq_v0)))
+__CPROVER_ensures(__CPROVER_old(g_xq_n) > 1 ==> (FE_KEEP(g_xq_x0) && FE_KEEP(g_xq_x1) && FE_KEEP(g_xq_y0) && FE_KEEP(g_xq_y1) && g_xq_v0 == __CPROVER_old(g_xq_v0) && g_xq_v1 == __CPROVER_old(g_xq_v1)))
 #else
 __CPROVER_assigns(*r)
 #endif
